@@ -41,6 +41,21 @@ pub fn check_spec(spec: &FileSpec, only: Option<&Query>) -> Result<(u64, usize),
     if r1.compression_type() != codec_of(stored.codec) {
         return Err(("codec".into(), format!("compression_type() = {:?}, stored codec id {}", r1.compression_type(), stored.codec), None));
     }
+    // the same three facts must still be reported once the reader has become a cursor, and by the
+    // reader handed back by the cursor
+    {
+        let c1 = crate::common::guarded(|| r1.into_cursor()).map_err(|p| ("open".to_string(), format!("into_cursor on a V1 file: {p}"), None))?;
+        let c1 = c1.map_err(|e| ("open".to_string(), format!("into_cursor on a V1 file: {e}"), None))?;
+        let facts = |r: &grenad::Reader<std::io::Cursor<&[u8]>>| (r.file_version(), r.len(), r.compression_type());
+        let want = (FileVersion::FormatV1, stored.count, codec_of(stored.codec));
+        if facts(&c1) != want {
+            return Err(("version".into(), format!("after into_cursor the V1 file reports {:?}, expected {:?}", facts(&c1), want), None));
+        }
+        let back = c1.into_reader();
+        if facts(&back) != want {
+            return Err(("version".into(), format!("the reader returned by into_reader reports {:?}, expected {:?}", facts(&back), want), None));
+        }
+    }
     let model = Model::new(entries);
     let uni = matches!(spec.entries, EntrySpec::Universe { .. });
     let qs = match only {
